@@ -1,12 +1,12 @@
 SPECIFICATION Spec
 CONSTANTS
-  Dev <- DevAsIs
+  Dev <- DevXh
   B = 3
   RecMax = 1
-  Bodies <- BodiesAll
-  Kinds <- KindsMCQ
-  MaxDepth = 2
-  Progs <- ProgramsMCQ
+  Bodies <- BodiesThree
+  Kinds <- KindsMC
+  MaxDepth = 3
+  Progs <- Programs
 INVARIANT TypeOK
 INVARIANT OutcomeMatches
 INVARIANT CtxRestored
